@@ -161,3 +161,33 @@ Proof.
   rewrite remove_nth_length in Hf2 by assumption. lia.
 Qed.
 End P.
+
+Section P2.
+Context {F : Type} (Op : fops F).
+Local Notation theapF := (theap (F:=F)).
+(* obj.tucker_copy(): nothing existing is touched; the copy is a new consistent object naming fresh locations only and holding what
+   the original holds *)
+Theorem tucker_copy_spec (th : theapF) cells o th' cells' o' :
+  tucker_copy_h th cells o = Ok (th', cells', o') ->
+  (exists a, t_arr th' = t_arr th ++ a) /\ (exists c, t_core th' = t_core th ++ c) /\ (exists l, t_lst th' = t_lst th ++ l) /\
+  o' = length cells /\ cells' = cells ++ [tcellr cells' o'] /\ tobj_consistent th' cells' o' /\
+  tobj_read th' cells' o' = tobj_read th cells o /\
+  length (t_core th) <= tc_core (tcellr cells' o') /\ length (t_lst th) <= tc_fs (tcellr cells' o') /\
+  (forall l, In l (tlst th' (tc_fs (tcellr cells' o'))) -> length (t_arr th) <= l).
+Proof.
+  unfold tucker_copy_h. destruct (tobj_read th cells o) as [core fs] eqn:Er.
+  set (th1 := mk_theap (t_core th ++ [core]) (t_arr th ++ fs) (t_lst th ++ [seq (length (t_arr th)) (length fs)])).
+  destruct (tucker_new_h th1 cells (length (t_core th)) (length (t_lst th))) as [[cells1 o1]|] eqn:En; [|discriminate].
+  intros E. injection E as <- <- <-.
+  destruct (tucker_new_h_spec _ _ _ _ _ _ En) as (Eo & Ecs & Ecl & Efl & Hcons).
+  split; [subst th1; cbn; eauto|]. split; [subst th1; cbn; eauto|]. split; [subst th1; cbn; eauto|].
+  split; [exact Eo|]. split; [exact Ecs|]. split; [exact Hcons|].
+  assert (El : tlst th1 (length (t_lst th)) = seq (length (t_arr th)) (length fs)).
+  { unfold tlst, th1. cbn [t_lst]. rewrite app_nth2 by lia. now rewrite Nat.sub_diag. }
+  split; [|split; [lia|split; [lia|]]].
+  - unfold tobj_read. rewrite Ecl, Efl. unfold tread. rewrite El. f_equal.
+    + unfold tcore, th1. cbn [t_core]. rewrite app_nth2 by lia. now rewrite Nat.sub_diag.
+    + unfold tarr, th1. cbn [t_arr]. apply map_nth_seq_app.
+  - rewrite Efl, El. intros l Hl. apply in_seq in Hl. lia.
+Qed.
+End P2.
